@@ -18,6 +18,14 @@ if MODE == "shim":
 MERGE_KERNELS = ("_merge_linear", "_merge_log16", "_merge_log8", "_merge")
 
 
+def conc(x, lo, hi):
+    """force a small-range symbolic int to a concrete value on every path (avoids non-linear width*depth*max_key_len)"""
+    for v in range(lo, hi + 1):
+        if x == v:
+            return v
+    return hi
+
+
 def _try_merge(a, b):
     """returns (raised TypeError?, untouched?, number of merge-kernel calls, first call)"""
     sa, sb = snapshot(a), snapshot(b)
@@ -90,15 +98,8 @@ def check_hll(p1: int, s1: int, p2: int, s2: int) -> bool:
     pre: 7 <= p1 <= 16 and 7 <= p2 <= 16 and 0 <= s1 < 2**64 and 0 <= s2 < 2**64
     post: _ == True
     """
+    p1, p2 = conc(p1, 7, 16), conc(p2, 7, 16)
     return _verdict(HLL.HyperLogLog(p1, s1), HLL.HyperLogLog(p2, s2), p1 == p2 and s1 == s2, "_merge")
-
-
-def conc(x, lo, hi):
-    """force a small-range symbolic int to a concrete value on every path (avoids non-linear width*depth*max_key_len)"""
-    for v in range(lo, hi + 1):
-        if x == v:
-            return v
-    return hi
 
 
 def _hh(w, d, k, phi_kind):
